@@ -47,8 +47,8 @@ META = {
                   'on generated graphs, selections, flags, target trees and DB backends and diffing every observable; '
                   'the monitor is the property statement evaluated on the observed behaviour.',
     'level_note': 'Trusted: Lean kernel (axioms propext/Classical.choice/Quot.sound only); the Python harness and doitdrv; '
-                  'OrderedDict / list / sorted / os.remove / os.rmdir semantics are modelled, fnmatch is modelled for '
-                  '`*`, `?` and literals only.  Tasks whose clean behaviour is invisible (no `clean`, or `clean: True` '
+                  'OrderedDict / list / sorted / os.remove / os.rmdir semantics are modelled, fnmatch is the matcher of M8 (Sel.glob: '
+                  '`*`, `?`, bracket classes; C12.glob_spec_full; compared with fnmatch.fnmatchcase directly by C12).  Tasks whose clean behaviour is invisible (no `clean`, or `clean: True` '
                   'with no existing target) cannot be observed and are excluded from the observed order, as in the model.',
     'rule': 'case = task table (1-9 tasks, groups with sub-tasks, task_dep/setup edges from a random topological order, '
             'sometimes a cycle; literal names with [ ] ?) + clean = True | list of 1-3 actions of many shapes + argv + '
@@ -67,7 +67,7 @@ META = {
                     'patterns use only `*`, `?` and literal characters',
                     'only dbm.dumb is available as dbm implementation in this sandbox'],
     'trusted': ['python dict/OrderedDict/sorted/os semantics: modelled, exercised through the real code',
-                'fnmatch: modelled for * ? and literals'],
+                'fnmatch: the model of C12 (POSIX, CPython 3.12 fnmatch.translate)'],
     'models': ['M7', 'M8'],
 }
 
